@@ -1,40 +1,131 @@
 """C14 — failure atomicity and memory safety of update() and functional calls.
-Fault enumeration in a child process: valid history ∘ one malformed call from a fixed
-catalogue ∘ valid continuation, for every registry class/config and functional twin.
-Observed: exit status of the worker (native crash), per-case timeout (hang), state_dict and
-plain attributes before/after a raising update(), and the continuation against a twin that
-never saw the fault.  Lean: validate-then-mutate ordering decided over the regenerated
-update() effect table; "a failed update leaves the state untouched" for the class models."""
+
+Fault enumeration in a child process, two catalogues:
+  (1) shape/type faults: valid history ∘ one malformed call from a fixed catalogue ∘ valid
+      continuation, for every registry class/config and functional twin;
+  (2) index faults (index-range safety): for every entry point that the regenerated inventory of
+      index sites (harness/translators/indexsites.py → lean/TE/Gen/IndexSites.lean) shows to be fed
+      by user labels / scores / k — labels -1, -C, C, C+1, 2^31, -2^63 in one element of the label
+      argument, NaN / ±inf in one score that is bucketed by searchsorted on its way to histc / an
+      index, k ∈ {0, -1, n+1, 2^31}.
+Observed: exit status of the worker (native crash), per-case timeout (hang), state_dict and plain
+attributes before/after a raising update(), the continuation against a twin that never saw the
+fault; for index faults additionally: a call that RETURNS on an out-of-range label (there is no
+textbook value for it) and a returned value that differs from the threshold-counting definition.
+Lean: validate-then-mutate ordering decided over the regenerated update() table; "a failed update
+leaves the state untouched" for the class models; index-kernel semantics, `idx_in_range_*` for all
+inputs on the typed models, and decided obligations over the regenerated inventory."""
 from __future__ import annotations
 import json, os, select, subprocess, sys, time
 from ..common import Report, VERIF, REPO, budget
 from ..translators import atomicity as atom_tr
+from ..translators import indexsites as index_tr
 
 LEVEL = "fault_enumeration"
-RULE = ("fault catalogue {drop/add/resize a dim, size-1, empty, 0-dim, bool/int/float64/half dtype, label −1, label 10^6, NaN, inf, None, str, "
+RULE = ("(1) fault catalogue {drop/add/resize a dim, size-1, empty, 0-dim, bool/int/float64/half dtype, label −1, label 10^6, NaN, inf, None, str, "
         "list, missing positional, extra kwarg} applied to one argument of a valid grid-valued call, injected after 0–2 valid updates, "
         "followed by 2 valid updates + compute on the object and on a twin; every registry class × config and every functional twin; "
+        "(2) index faults: for every (entry point, argument) that the regenerated index-site inventory marks as reaching an index kernel "
+        "(plus the class-label argument of every Multiclass* metric and `indexes` of the retrieval classes): labels {-1,-C,C,C+1,2^31,-2^63}, "
+        "scores {NaN,+inf,-inf} where searchsorted buckets them, k ∈ {0,-1,n+1,2^31}; class (history ∘ fault ∘ continuation) and functional; "
         "non-trivial = distinct (class/functional, config, fault) whose faulty call raised")
-MODELLED = ["native memory safety inside torch kernels cannot be shown by this technique; only crashes/hangs that actually occur are observed"]
-ASSUMPTIONS = ["a fault that the real code accepts and answers normally is not a violation of this property (it may be one of C18)"]
-TRUSTED_EXTRA = ["harness/translators/atomicity.py (AST statement order of update()) producing lean/TE/Gen/Atomicity.lean"]
+MODELLED = ["native memory safety inside torch kernels cannot be shown by this technique; only crashes/hangs that actually occur are observed",
+            "index-site inventory: intra-function data flow + call graph over the AST (classification rules trusted, kernel behaviours probed on the installed torch); "
+            "slice bounds are sums of shapes, modular cursors and min(): assumed non-negative (negative bounds would follow Python slice semantics)",
+            "integer-level entry models (checkLabels/confusionI/scatterAddI/aurocWrites in TE/Model/Index.lean) are not linked into the driver: they are tied to the code "
+            "by the inventory translator (presence of the checks) and by the index-fault enumeration (observed raising), not by the differential correspondence",
+            "a NaN score has no textbook value: the memory-optimised binned forms (searchsorted) count it as above every threshold, the vectorized forms (>=) as below; "
+            "recorded in the input distribution, not a violation"]
+ASSUMPTIONS = ["a shape/type fault that the real code accepts and answers normally is not a violation of this property (it may be one of C18)",
+               "an out-of-range LABEL has no textbook result: a call that returns on it is reported (signature …|returned-instead-of-raising)",
+               "thresholds of the binned metrics lie in [0,1]: +inf must count like the score 2.0, -inf like -1.0"]
+TRUSTED_EXTRA = ["harness/translators/atomicity.py (AST statement order of update()) producing lean/TE/Gen/Atomicity.lean",
+                 "harness/translators/indexsites.py (AST index-site inventory + empirical kernel probe) producing lean/TE/Gen/IndexSites.lean"]
 CASE_TIMEOUT = 20.0
 
 
 def translate(rep: Report):
     atom_tr.generate(rep)
+    index_tr.generate(rep)
+
+
+def generate():
+    """regenerate both Gen files of C14 (used by setup)."""
+    atom_tr.generate()
+    index_tr.generate()
+
+# ------------------------------------------------------------------ the oracle (shared by the sweep and by replay)
+
+
+def judge(case, d) -> list[tuple[str, str]]:
+    """violations [(signature, what)] of one finished case (`d` = the worker's `done` record)."""
+    kind, name, ci, fault, cseed = case
+    out = []
+    if kind in ("cls", "fn"):
+        if d.get("state_changed"):
+            out.append((f"C14|{name}.update|{fault}|state-changed-by-failed-call",
+                        f"{name}.update raised {d['raised']} on fault {fault} but state_dict()/attributes changed"))
+        elif d.get("continuation_differs"):
+            out.append((f"C14|{name}.update|{fault}|continuation-differs-after-failed-call",
+                        f"{name}: after a failed update ({fault}): {d['continuation_differs']}"))
+        return out
+    entry = d.get("entry", name)
+    fam, rest = fault.split(":", 1)
+    fname = rest.rsplit("@", 1)[0]
+    if d.get("state_changed"):
+        out.append((f"C14|{entry}|{fam}:{fname}|state-changed-by-failed-call",
+                    f"{entry} raised {d['raised']} on {fam} {fname} but state_dict()/attributes changed"))
+    elif d.get("continuation_differs"):
+        out.append((f"C14|{entry}|{fam}:{fname}|continuation-differs-after-failed-call", f"{entry}: after a failed call ({fam} {fname}): {d['continuation_differs']}"))
+    elif d.get("returned") and fam == "label":
+        side = "label<0" if d.get("value", 0) < 0 else "label>=C"
+        after = f"; compute() afterwards {d['compute']}" if d.get("compute") else ""
+        out.append((f"C14|{entry}|{side}|returned-instead-of-raising",
+                    f"{entry} (config {d.get('cfg')}) accepted the label {d.get('value')} (valid labels 0..{d.get('bound', 0) - 1}) and returned normally{after}; "
+                    f"the label argument reaches: {', '.join(d.get('kinds', []))}"))
+    elif d.get("returned") and str(d.get("oracle", "")).startswith("differs"):
+        out.append((f"C14|{entry}|score:{fname}|result-differs-from-threshold-counting", f"{entry} with a {fname} score: {d['oracle']}"))
+    elif d.get("returned") and d.get("oracle") in ("differs-from-k=n", "nonzero-for-k<=0"):
+        out.append((f"C14|{entry}|k:{fname}|{d['oracle']}", f"{entry} with k={d.get('value')} returned a value that is {d['oracle']}"))
+    return out
+
+
+def worker_cmd(*args):
+    return [sys.executable, "-m", "harness.props.c14_worker", *args]
+
+
+def worker_env():
+    return dict(os.environ, PYTHONPATH=f"{VERIF}:{REPO}", PYTHONWARNINGS="ignore", TE_REPO=str(REPO))
+
+
+def account(rep: Report, case, d):
+    """input-distribution histogram of one finished case."""
+    kind, fault = case[0], case[3]
+    if kind in ("cls", "fn"):
+        rep.count(f"fault:{fault}"); rep.count("raised" if d.get("raised") else "accepted")
+        if d.get("raised"):
+            rep.count(f"err:{d['raised']}")
+        return
+    fam, rest = fault.split(":", 1)
+    fname = rest.rsplit("@", 1)[0]
+    if d.get("raised"):
+        outcome = "raised:" + str(d["raised"]) + ("@" + d["at"] if d.get("at") else "")
+    else:
+        outcome = "returned" + (":" + str(d["oracle"]) if d.get("oracle") else "") + ("|compute-" + d["compute"] if d.get("compute") else "")
+    rep.count(f"idx:{fam}:{fname}:{outcome}")
+    rep.count(f"idx-kinds:{'+'.join(d.get('kinds', []) or ['?'])}:{fam}:{'raised' if d.get('raised') else 'returned'}")
 
 
 def drive(rep: Report, seed: int, tier: str, deadline: float):
-    env = dict(os.environ, PYTHONPATH=f"{VERIF}:{REPO}", PYTHONWARNINGS="ignore")
+    env = worker_env()
     start, skip = 0, []
-    total = None
     while True:
-        p = subprocess.Popen([sys.executable, "-m", "harness.props.c14_worker", str(seed), tier, str(start), ",".join(map(str, skip))],
+        p = subprocess.Popen(worker_cmd(str(seed), tier, str(start), ",".join(map(str, skip))),
                              cwd=str(VERIF), env=env, stdout=subprocess.PIPE, stderr=subprocess.DEVNULL, text=True)
         inflight = None
         last = time.time()
         finished = False
+        cur = start
         while True:
             if time.time() > deadline:
                 p.kill(); rep.notes.append("budget exhausted before the catalogue was complete"); return
@@ -44,7 +135,8 @@ def drive(rep: Report, seed: int, tier: str, deadline: float):
                     break
                 if inflight is not None and time.time() - last > CASE_TIMEOUT:
                     p.kill()
-                    rep.violation(f"C14|{inflight[1]}|{inflight[3]}|hang", f"{inflight[1]} fault {inflight[3]}: no answer within {CASE_TIMEOUT}s", {"case": inflight, "seed": seed, "tier": tier})
+                    rep.violation(f"C14|{inflight[1]}|{inflight[3]}|hang", f"{inflight[1]} fault {inflight[3]}: no answer within {CASE_TIMEOUT}s",
+                                  {"case": inflight, "seed": seed, "tier": tier})
                     break
                 continue
             line = p.stdout.readline()
@@ -64,21 +156,16 @@ def drive(rep: Report, seed: int, tier: str, deadline: float):
                 start = d["done"] + 1
                 if d.get("skip"):
                     continue
-                rep.count(f"fault:{case[3]}"); rep.count("raised" if d.get("raised") else "accepted")
-                if d.get("raised"):
-                    rep.count(f"err:{d['raised']}")
+                account(rep, case, d)
                 rep.case(nontrivial_key=(case[0], case[1], case[2], case[3]) if d.get("raised") else None,
                          sample={"case": case, "result": {k: v for k, v in d.items() if k != "detail"}} if rep.evaluations % 499 == 0 else None)
                 if d.get("harness_error"):
                     rep.notes.append(f"harness error in {case}: {d['harness_error']}"[:200])
-                if d.get("state_changed"):
-                    rep.violation(f"C14|{case[1]}.update|{case[3]}|state-changed-by-failed-call",
-                                  f"{case[1]}.update raised {d['raised']} on fault {case[3]} but state_dict()/attributes changed", d.get("detail", {}))
-                elif d.get("continuation_differs"):
-                    rep.violation(f"C14|{case[1]}.update|{case[3]}|continuation-differs-after-failed-call",
-                                  f"{case[1]}: after a failed update ({case[3]}): {d['continuation_differs']}", d.get("detail", {}))
+                for sig, what in judge(case, d):
+                    rep.violation(sig, what, {"case": case, "seed": seed, "tier": tier, "observed": {k: v for k, v in d.items() if k != "detail"},
+                                              "detail": d.get("detail", {})})
             elif "finished" in d:
-                finished = True; total = d["finished"]
+                finished = True
         rc = p.wait()
         if finished:
             return
@@ -93,16 +180,23 @@ def drive(rep: Report, seed: int, tier: str, deadline: float):
             return
 
 
-def crash_probe(rep: Report):
-    """the one native crash known on this tree: torch.linalg.eigvals on a non-finite matrix."""
-    code = ("import sys; sys.path.insert(0, %r); import torch\n"
-            "from torcheval.metrics.functional.frechet import gaussian_frechet_distance as g\n"
-            "c = torch.full((2, 2), float('nan')); print(g(torch.zeros(2), c, torch.zeros(2), c))\n") % str(REPO)
+CRASH_CODE = ("import sys; sys.path.insert(0, %r); import torch\n"
+              "from torcheval.metrics.functional.frechet import gaussian_frechet_distance as g\n"
+              "c = torch.full((2, 2), float('nan')); print(g(torch.zeros(2), c, torch.zeros(2), c))\n")
+
+
+def run_code(code: str):
     try:
         p = subprocess.run([sys.executable, "-c", code], capture_output=True, text=True, timeout=120)
-        rc = p.returncode
+        return p.returncode
     except subprocess.TimeoutExpired:
-        rc = "timeout"
+        return "timeout"
+
+
+def crash_probe(rep: Report):
+    """the one native crash known on this tree: torch.linalg.eigvals on a non-finite matrix."""
+    code = CRASH_CODE % str(REPO)
+    rc = run_code(code)
     rep.case(nontrivial_key=("crash-probe", "gaussian_frechet_distance"))
     if rc not in (0, 1):
         rep.violation("C14|gaussian_frechet_distance|non-finite-covariance|interpreter-crash",
@@ -110,10 +204,91 @@ def crash_probe(rep: Report):
                       {"code": code, "exit_status": rc})
 
 
+# the unguarded index sites of TE/Props/C14.lean (`unguardedSites`), each with a minimal concrete input:
+# what the real code does there is printed into the evidence notes on every run (child process).
+UNGUARDED = [
+    ("binary_binned_precision_recall_curve target=2 (histc code lands in a foreign bin)",
+     "from torcheval.metrics.functional import binary_binned_precision_recall_curve as f\n"
+     "a = f(torch.tensor([0.0, 0.6]), torch.tensor([2, 1]), threshold=torch.tensor([0.0, 0.5]))\n"
+     "b = f(torch.tensor([0.6]), torch.tensor([1]), threshold=torch.tensor([0.0, 0.5]))\n"
+     "print('with the sample (score 0.0, target 2):', [t.tolist() for t in a], ' without it:', [t.tolist() for t in b])"),
+    ("multiclass_binned_precision_recall_curve(optimization='memory') target=-1 wraps to the last class; 'vectorized' raises",
+     "from torcheval.metrics.functional import multiclass_binned_precision_recall_curve as f\n"
+     "x = torch.tensor([[0.9, 0.1, 0.0], [0.1, 0.8, 0.1]]); t = torch.tensor([0.0, 0.5])\n"
+     "m = f(x, torch.tensor([0, -1]), num_classes=3, threshold=t, optimization='memory')\n"
+     "w = f(x, torch.tensor([0, 2]), num_classes=3, threshold=t, optimization='memory')\n"
+     "print('target -1:', [[u.tolist() for u in p] for p in m[:2]], ' target 2:', [[u.tolist() for u in p] for p in w[:2]])\n"
+     "try:\n    f(x, torch.tensor([0, -1]), num_classes=3, threshold=t, optimization='vectorized'); print('vectorized returned')\n"
+     "except Exception as e:\n    print('vectorized raises', type(e).__name__)"),
+    ("multilabel_binned_precision_recall_curve(optimization='memory') target=2",
+     "from torcheval.metrics.functional import multilabel_binned_precision_recall_curve as f\n"
+     "x = torch.tensor([[0.1, 0.7]]); t = torch.tensor([0.0, 0.5])\n"
+     "print('target [2,1]:', [[u.tolist() for u in p] for p in f(x, torch.tensor([[2, 1]]), num_labels=2, threshold=t, optimization='memory')[:2]],\n"
+     "      ' target [0,1]:', [[u.tolist() for u in p] for p in f(x, torch.tensor([[0, 1]]), num_labels=2, threshold=t, optimization='memory')[:2]])"),
+    ("perplexity target=-1 reads the LAST vocabulary entry",
+     "from torcheval.metrics.functional import perplexity as f\n"
+     "x = torch.tensor([[[0.0, 0.0, 2.0]]])\n"
+     "print('target -1:', float(f(x, torch.tensor([[-1]]))), ' target 2:', float(f(x, torch.tensor([[2]]))), ' target 0:', float(f(x, torch.tensor([[0]]))))\n"
+     "try:\n    f(x, torch.tensor([[-4]])); print('target -4 returned')\nexcept Exception as e:\n    print('target -4 raises', type(e).__name__)"),
+]
+
+
+def unguarded_demo(rep: Report):
+    for title, body in UNGUARDED:
+        code = "import sys; sys.path.insert(0, %r); import torch\n" % str(REPO) + body
+        try:
+            p = subprocess.run([sys.executable, "-c", code], capture_output=True, text=True, timeout=120,
+                               env=dict(os.environ, PYTHONWARNINGS="ignore"))
+            outp = (p.stdout.strip().split("\n")[-3:] if p.stdout.strip() else [p.stderr.strip()[-200:]])
+            rep.notes.append(f"unguarded site — {title}: exit {p.returncode}: " + " | ".join(outp)[:400])
+            rep.case(nontrivial_key=("unguarded-demo", title))
+            if p.returncode not in (0, 1):
+                rep.violation(f"C14|{title.split(' ')[0]}|unguarded-index-site|interpreter-crash", f"{title}: exit status {p.returncode}", {"code": code, "exit_status": p.returncode})
+        except subprocess.TimeoutExpired:
+            rep.violation(f"C14|{title.split(' ')[0]}|unguarded-index-site|hang", f"{title}: no answer within 120 s", {"code": code})
+
+
 def run(rep: Report):
     crash_probe(rep)
+    unguarded_demo(rep)
     drive(rep, rep.seed, rep.tier, time.time() + budget(rep.tier, 100, 900))
 
 
 def search(rep: Report):
     drive(rep, rep.seed + 7, "thorough", time.time() + 120)
+
+
+def replay(payload) -> bool:
+    """True iff the property holds on the replayed input (the real code at TE_REPO)."""
+    if payload.get("kind") == "no-failing-input-found" or "replay" not in payload:
+        raise ValueError("nothing to replay: the payload names a proof obligation / correspondence stream that no longer checks, not a concrete input")
+    r = payload["replay"]
+    if "code" in r:
+        # native crash / hang probes: the recorded program is re-run in a child process
+        code = r["code"].replace(repr("/repo"), repr(str(REPO)))
+        return run_code(code) in (0, 1)
+    case = r.get("case")
+    if not case:
+        raise ValueError("nothing to replay: the payload carries no fault case")
+    try:
+        p = subprocess.run(worker_cmd("--one", json.dumps(case)), cwd=str(VERIF), env=worker_env(), capture_output=True, text=True, timeout=CASE_TIMEOUT * 3)
+    except subprocess.TimeoutExpired:
+        print("replay: the case hangs")
+        return False
+    if p.returncode != 0:
+        print(f"replay: the worker died with status {p.returncode}")
+        return False
+    d = None
+    for line in p.stdout.split("\n"):
+        try:
+            x = json.loads(line)
+        except json.JSONDecodeError:
+            continue
+        if "done" in x:
+            d = x
+    if d is None or d.get("harness_error"):
+        raise RuntimeError(f"replay: no result from the worker ({(d or {}).get('harness_error', p.stderr[-200:])})")
+    found = judge(case, d)
+    for sig, what in found:
+        print(f"replay: {sig}: {what}")
+    return not found
